@@ -146,6 +146,9 @@ func (h264dp *h264Depacketizer) depacketizeFuA(packet *Packet) (err error) {
 
 	if (fuHeader>>7)&1 == 1 { // 第一个分片包
 		h264dp.fragments = h264dp.fragments[:0]
+	} else if len(h264dp.fragments) == 0 {
+		// the start fragment was lost: drop the rest of the unit
+		return
 	}
 	if len(h264dp.fragments) != 0 &&
 		h264dp.fragments[len(h264dp.fragments)-1].SequenceNumber != packet.SequenceNumber-1 {
